@@ -1,0 +1,24 @@
+//! Verification hooks (feature `verif-hooks` only).
+//! A *sync point* is a named place of the code where a harness-installed handler is called.
+//! Without a handler (the default) a sync point does nothing.
+
+use std::sync::{Arc, RwLock};
+
+type Handler = Arc<dyn Fn(&'static str) + Send + Sync>;
+
+lazy_static::lazy_static! {
+    static ref HANDLER: RwLock<Option<Handler>> = RwLock::new(None);
+}
+
+/// Installs (or removes, with `None`) the process-wide sync point handler.
+pub fn set_sync_handler(handler: Option<Handler>) {
+    *HANDLER.write().unwrap() = handler;
+}
+
+/// Calls the installed handler, if any, with the name of this sync point.
+pub fn sync_point(name: &'static str) {
+    let handler = HANDLER.read().unwrap().clone();
+    if let Some(handler) = handler {
+        handler(name);
+    }
+}
